@@ -6,7 +6,11 @@ patch=$1; shift
 pids=${*:-C01 C02 C03 C04 C05 C06 C07 C08 C09 C10 C11 C12 C13 C14 C15 C16 C17 C18 C19 C20}
 s=$(mktemp -d /tmp/cjharmless_XXXXXX)
 mkdir $s/src && cp /repo/cJSON.c /repo/cJSON.h /repo/cJSON_Utils.c /repo/cJSON_Utils.h $s/src/
-(cd $s/src && git apply --include='cJSON*' $patch) || { echo "patch does not apply"; rm -rf $s; exit 2; }
+(cd $s/src && git apply --include='cJSON*' $patch 2>/dev/null) || {
+  # written against an older revision of /repo (before a later fix: commit): try that revision
+  base=${HARMLESS_BASE:-13459ab}; echo "patch does not apply to HEAD, using base $base"
+  for f in cJSON.c cJSON.h cJSON_Utils.c cJSON_Utils.h; do git -C /repo show $base:$f > $s/src/$f; done
+  (cd $s/src && git apply --include='cJSON*' $patch) || { echo "patch does not apply"; rm -rf $s; exit 2; } }
 cp -a /verif/coq $s/coq; cp -a /verif/ocaml $s/ocaml; mkdir -p $s/replays
 run() { cd /verif && VERIF_REPO=$s/src VERIF_COQ_DIR=$s/coq VERIF_OCAML_DIR=$s/ocaml VERIF_EVIDENCE_DIR=$s/evidence VERIF_REPLAY_DIR=$s/replays python3 tools/check.py $1 --tier quick > $s/$1.log 2>&1; echo "$1 exit=$?" >> $s/$1.log; }
 first=$(echo $pids | cut -d' ' -f1); run $first      # builds the scratch development once
